@@ -14,8 +14,10 @@ import (
 	"fmt"
 	"net/http"
 	"os"
+	"path/filepath"
 	"sort"
 	"strings"
+	"sync"
 	"testing"
 	"time"
 
@@ -64,6 +66,10 @@ type vc13Round struct {
 	// Tight makes the refresh context expire together with the first HTTP
 	// timeout, as in production, where both use the same duration.
 	Tight bool `json:"tight,omitempty"`
+
+	// Dribble makes complete bodies arrive in three pieces; between the
+	// pieces the server looks at the cache files.
+	Dribble bool `json:"dribble,omitempty"`
 }
 
 // vc13Seq is one generated case.
@@ -135,6 +141,100 @@ type vc13World struct {
 
 	// timeout is the HTTP timeout of every refreshable.
 	timeout time.Duration
+
+	// hashMax is the size limit of the hash lists.
+	hashMax int
+}
+
+// vc13Probe watches the cache files while bodies are only partly delivered.
+type vc13Probe struct {
+	mu     sync.Mutex
+	closed bool
+	dir    string
+
+	// before maps a file name to its content when the round began.
+	before map[string][]byte
+
+	// fileOf maps a path to its cache file; others maps a path to the
+	// complete bodies that other URLs of the same file deliver in this
+	// round.
+	fileOf map[string]string
+	others map[string][][]byte
+
+	n    int
+	fail string
+}
+
+// look is the probe callback of the server.
+func (p *vc13Probe) look(path, stage string) {
+	p.mu.Lock()
+	defer p.mu.Unlock()
+
+	file := p.fileOf[path]
+	if p.closed || file == "" || p.fail != "" {
+		return
+	}
+
+	got, err := os.ReadFile(filepath.Join(p.dir, file))
+	if os.IsNotExist(err) {
+		got = nil
+	} else if err != nil {
+		return
+	} else if got == nil {
+		got = []byte{}
+	}
+
+	p.n++
+	want := p.before[file]
+	if (got == nil) == (want == nil) && bytes.Equal(got, want) {
+		return
+	}
+
+	for _, o := range p.others[path] {
+		if got != nil && bytes.Equal(got, o) {
+			return
+		}
+	}
+
+	p.fail = fmt.Sprintf(
+		"while the body of %s was only partly delivered (%s), the cache file %q had already changed\nbefore the round: %s\nseen: %s",
+		path, stage, file, vc13Short(want), vc13Short(got),
+	)
+}
+
+// finish stops the probe and returns the number of looks and the first
+// failure.
+func (p *vc13Probe) finish() (n int, fail string) {
+	p.mu.Lock()
+	defer p.mu.Unlock()
+
+	p.closed = true
+
+	return p.n, p.fail
+}
+
+// newProbe creates the probe of a round.
+func (w *vc13World) newProbe(before *vc13Obs, info *vc13RoundInfo) (p *vc13Probe) {
+	p = &vc13Probe{dir: w.dir, before: before.Files, fileOf: map[string]string{}, others: map[string][][]byte{}}
+	p.fileOf[vc13IdxPath] = vc13IdxFile
+	for _, s := range vc13Slots {
+		p.fileOf[s.path] = s.file
+		if s.kind != vc13KindRule {
+			continue
+		}
+
+		d := s.path + "/dup"
+		p.fileOf[d] = s.file
+		if ui := info.urls[d]; ui != nil && ui.ok {
+			p.others[s.path] = append(p.others[s.path], ui.body)
+		}
+
+		if ui := info.urls[s.path]; ui != nil && ui.ok {
+			p.others[d] = append(p.others[d], ui.body)
+		}
+	}
+
+	return p
 }
 
 // vc13NewWorld creates the server, the directory and the units.
@@ -145,6 +245,7 @@ func vc13NewWorld(
 	baseDir string,
 	cacheOn bool,
 	timeout time.Duration,
+	hashMax int,
 ) (w *vc13World) {
 	dir, err := os.MkdirTemp(baseDir, "cache-")
 	if err != nil {
@@ -165,9 +266,10 @@ func vc13NewWorld(
 		svcNil:   map[string]bool{},
 		pub:      map[string][]byte{},
 		timeout:  timeout,
+		hashMax:  hashMax,
 	}
 
-	w.u, err = vc13NewUnits(dir, w.srv.URL(), w.el, timeout, cacheOn)
+	w.u, err = vc13NewUnits(dir, w.srv.URL(), w.el, timeout, cacheOn, hashMax)
 	if err != nil {
 		w.close()
 		t.Fatalf("harness: creating units: %v", err)
@@ -243,9 +345,6 @@ func (w *vc13World) plan(n int, rd *vc13Round) (resps map[string]*vc13Resp, info
 			ui.ok = true
 		case vc13Oversize:
 			r.body = fresh(vc13OversizeFill)
-			if len(r.body) <= vc13MaxSize {
-				panic("vc13: oversize body is too small")
-			}
 		case vc13S404, vc13S500:
 			r.body = fresh(sc.Fill)
 		case vc13HangBody, vc13ShortCL, vc13ChunkTrunc:
@@ -257,8 +356,21 @@ func (w *vc13World) plan(n int, rd *vc13Round) (resps map[string]*vc13Resp, info
 			panic("vc13: bad kind " + string(sc.Kind))
 		}
 
-		if ui.ok && len(r.body) >= vc13MaxSize {
+		limit := vc13MaxSize
+		if strings.HasPrefix(path, "/hp/") {
+			limit = w.hashMax
+		}
+
+		if ui.ok && len(r.body) >= limit {
 			panic("vc13: complete body is too large")
+		}
+
+		if sc.Kind == vc13Oversize && len(r.body) <= limit {
+			panic("vc13: oversize body is too small")
+		}
+
+		if rd.Dribble && (ui.ok || sc.Kind == vc13Oversize) {
+			r.chunks = 3
 		}
 
 		ui.body = r.body
@@ -393,12 +505,12 @@ func (w *vc13World) observe(u *vc13Units, where string, seq *vc13Seq) (o *vc13Ob
 		w.t.Fatalf("C13 violated %s: %s\ncase: %s", where, bad, vc13JSON(seq))
 	}
 
-	files, err := vc13ReadFiles(w.dir)
+	files, inodes, err := vc13ReadFiles(w.dir)
 	if err != nil {
 		w.t.Fatalf("harness: reading cache files: %v", err)
 	}
 
-	return &vc13Obs{Served: served, Files: files}
+	return &vc13Obs{Served: served, Files: files, Inodes: inodes}
 }
 
 // vc13JSON renders v for messages.
@@ -425,9 +537,11 @@ func vc13IntsHave(vs []int, v int) (ok bool) {
 // vc13TimeoutLike reports whether an error message of the code under test
 // says that a deadline was hit.
 func vc13TimeoutLike(msg string) (ok bool) {
-	return strings.Contains(msg, "Client.Timeout") ||
-		strings.Contains(msg, "deadline exceeded") ||
-		strings.Contains(msg, "context canceled")
+	msg = strings.ToLower(msg)
+
+	return strings.Contains(msg, "timeout") ||
+		strings.Contains(msg, "deadline") ||
+		strings.Contains(msg, "canceled")
 }
 
 // vc13RoundResult is what checkRound learnt about a round, for statistics.
@@ -689,6 +803,17 @@ func (w *vc13World) checkRound(
 					cls("file-new-memory-previous")
 				}
 
+				// A file that is replaced atomically is another file
+				// (rename over it); the same inode with other bytes was
+				// rewritten in place, and was neither version meanwhile.
+				if b != nil && before.Inodes[file] != 0 && before.Inodes[file] == after.Inodes[file] {
+					fail("cache file %q changed from one complete version to another in place (same inode %d): "+
+						"between the truncation and the last write it was neither\nbefore: %s\nafter:  %s",
+						file, after.Inodes[file], vc13Short(b), vc13Short(a))
+				}
+
+				cls("file-replaced-by-new-inode")
+
 				return
 			}
 		}
@@ -725,11 +850,11 @@ func vc13FileSlot(file string) (name string) {
 func (w *vc13World) checkRestart(seq *vc13Seq, last *vc13Obs, cacheOn bool) (class string) {
 	t := w.t
 
-	w.srv.setPlan(map[string]*vc13Resp{}, &vc13Resp{kind: vc13S500, body: []byte("down\n")})
+	w.srv.setPlan(map[string]*vc13Resp{}, &vc13Resp{kind: vc13S500, body: []byte("down\n")}, nil)
 	defer w.srv.endRound()
 
 	el := &vc13ErrLog{}
-	u, err := vc13NewUnits(w.dir, w.srv.URL(), el, w.timeout, cacheOn)
+	u, err := vc13NewUnits(w.dir, w.srv.URL(), el, w.timeout, cacheOn, w.hashMax)
 	if err != nil {
 		t.Fatalf("harness: creating units for restart: %v", err)
 	}
@@ -805,7 +930,7 @@ func (w *vc13World) checkRestart(seq *vc13Seq, last *vc13Obs, cacheOn bool) (cla
 
 // vc13RunSeq runs one sequence against the real code.
 func vc13RunSeq(t vc13T, st *vstat.Stats, msgs *dnsmsg.Constructor, baseDir string, seq *vc13Seq) {
-	w := vc13NewWorld(t, st, msgs, baseDir, seq.CacheOn, vc13Timeout)
+	w := vc13NewWorld(t, st, msgs, baseDir, seq.CacheOn, vc13Timeout, vc13MaxSize)
 	defer w.close()
 
 	var classes []string
@@ -821,7 +946,8 @@ func vc13RunSeq(t vc13T, st *vstat.Stats, msgs *dnsmsg.Constructor, baseDir stri
 		n := ri + 1
 
 		resps, info := w.plan(n, rd)
-		w.srv.setPlan(resps, nil)
+		probe := w.newProbe(before, info)
+		w.srv.setPlan(resps, nil, probe.look)
 
 		ctxTimeout := vc13CtxGenerous
 		if rd.Tight {
@@ -829,8 +955,16 @@ func vc13RunSeq(t vc13T, st *vstat.Stats, msgs *dnsmsg.Constructor, baseDir stri
 		}
 
 		pnc := w.u.refreshAll(w.el, ri == 0, ctxTimeout)
+		nLooks, probeFail := probe.finish()
 		hits := w.srv.endRound()
 		emsgs := w.el.take()
+		if probeFail != "" {
+			t.Fatalf("C13 violated in round %d: %s\nround: %s\ncase: %s", ri, probeFail, vc13JSON(rd), vc13JSON(seq))
+		}
+
+		if nLooks > 0 {
+			classes = append(classes, "probe:looked-while-body-in-flight")
+		}
 
 		if pnc != nil {
 			if info.svcFlavor == "nilentry" && hits["/svc"] > 0 && st.Known(vc13KnownSvcNilPanic) {
@@ -1049,6 +1183,7 @@ func vc13GenSeq(t *rapid.T) (seq *vc13Seq) {
 		}
 
 		rd.Tight = rapid.IntRange(0, 5).Draw(t, lbl+"-tight") == 0
+		rd.Dribble = rapid.IntRange(0, 3).Draw(t, lbl+"-dribble") == 0
 		seq.Rounds = append(seq.Rounds, rd)
 	}
 
@@ -1076,6 +1211,9 @@ var vc13RequiredClasses = []string{
 	"storage-refresh-aborted-after-lists",
 	"list-dropped-by-index", "list-added",
 	"restart:checked",
+	"probe:looked-while-body-in-flight",
+	"file-replaced-by-new-inode",
+	"ctx:tight",
 }
 
 // TestVerifC13FaultSequences is the rapid part of C13 (a).
@@ -1100,7 +1238,7 @@ func vc13GridSeqs() (seqs []*vc13Seq) {
 	allEntries := []vc13Entry{{T: "valid", L: "a"}, {T: "valid", L: "b"}, {T: "valid", L: "c"}}
 
 	okRound := func() (rd vc13Round) {
-		rd = vc13Round{Idx: vc13Script{Kind: vc13OKNew}, Entries: allEntries, S: map[string]vc13Script{}}
+		rd = vc13Round{Idx: vc13Script{Kind: vc13OKNew}, Entries: allEntries, S: map[string]vc13Script{}, Dribble: true}
 		for _, s := range vc13Slots {
 			rd.S[s.name] = vc13Script{Kind: vc13OKNew, Fill: 3}
 		}
@@ -1210,10 +1348,13 @@ func vc13GridSeqs() (seqs []*vc13Seq) {
 
 // TestVerifC13FaultGrid is the enumerated part of C13 (a).
 func TestVerifC13FaultGrid(t *testing.T) {
-	req := []string{"fault-after-success", "fault-without-previous", "restart:checked"}
+	req := []string{
+		"fault-after-success", "fault-without-previous", "restart:checked", "partial-index-valid-entries-applied",
+		"probe:looked-while-body-in-flight", "file-replaced-by-new-inode",
+	}
 	for _, k := range vc13FaultKinds {
-		for _, s := range vc13Slots {
-			req = append(req, "cell:"+s.name+":"+string(k))
+		for _, tg := range vc13Targets {
+			req = append(req, "cell:"+tg+":"+string(k))
 		}
 	}
 
@@ -1225,8 +1366,15 @@ func TestVerifC13FaultGrid(t *testing.T) {
 	msgs := agdtest.NewConstructor(t)
 	baseDir := t.TempDir()
 
+	// The driver may split the grid over processes; the union is complete.
+	shard, nShards := vstat.EnvInt("VERIF_SHARD", 0), max(vstat.EnvInt("VERIF_NSHARDS", 1), 1)
+
 	seqs := vc13GridSeqs()
 	for i, seq := range seqs {
+		if i%nShards != shard%nShards {
+			continue
+		}
+
 		t.Logf("grid case %d", i)
 		vc13RunSeq(t, st, msgs, baseDir, seq)
 	}
